@@ -143,7 +143,7 @@ func init() {
 			fixedCases(c, spellingCases(), both)
 			fixedCases(c, boundaryCases(), oracleC11)
 			fixedCases(c, hugeCases(), both)
-			fixedCases(c, dynCallBranchCases(c.Thorough()), both)
+			fixedCases(c, dynCallBranchCases(c.Thorough(), c.Mine), both)
 			fixedCases(c, fullStackCallCases(), oracleC11)
 		},
 		Level: "exploration",
